@@ -3309,10 +3309,8 @@ impl IceCandidate {
             "typ".into(),
             self.typ.as_str().into(),
         ];
-        if let Some(tcp_type) = self.tcp_type {
-            parts.push("tcptype".into());
-            parts.push(tcp_type.as_str().into());
-        }
+        // RFC 8839 5.1: ... typ <type> [raddr <addr>] [rport <port>] *(extension):
+        // the related address comes before extension attributes such as tcptype.
         if let Some(addr) = self.related_address
             && self.typ != IceCandidateType::Host
         {
@@ -3320,6 +3318,10 @@ impl IceCandidate {
             parts.push(addr.ip().to_string());
             parts.push("rport".into());
             parts.push(addr.port().to_string());
+        }
+        if let Some(tcp_type) = self.tcp_type {
+            parts.push("tcptype".into());
+            parts.push(tcp_type.as_str().into());
         }
         parts.join(" ")
     }
